@@ -116,7 +116,7 @@ PROPS = {
              'routed to emit.error; every while loop and recursive cycle reachable from main has a visible progress '
              'argument or an acyclicity establisher.',
              'wall-clock bounds; ply and ElementTree internals',
-             'call graph + exception-escape dataflow with an implicit-raise op table, loop/recursion progress classification'),
+             'call graph + exception-escape dataflow with an implicit-raise op table, loop/recursion progress classification', claimed=True),
     'C14': P('constant expressions denote one integer everywhere',
              'The two evaluators map shared operator tokens to the same Python operator with agreeing precedence tables; '
              'every applied operator is integer-closed; hex/decimal literal lexers denote the same language; no raw '
